@@ -527,7 +527,7 @@ def rand_decl(rng):
 
 def rand_method(rng):
     kind = rng.choice(["proc", "proc", "func"])
-    name = rng.choice(INH_METHOD_NAMES[:9] + ["Work", "work", "_w", "Helper", "compute"])
+    name = rng.choice(INH_METHOD_NAMES[:9] + ["Work", "work", "_w", "Helper", "compute", "handle#Click", "Handle#click", "init#Evt"])
     if kind == "func":
         name = name.split("#")[0]
     mods = []
@@ -617,6 +617,11 @@ def gen_programs(ctx):
             add("name", place(Method(kind, nm, [], "int4", mod, []).render()))
         else:
             add("name", place(["%s%s : int4%s" % ("memory " if kind == "memory" else "", nm, "".join(" " + m for m in mod))]))
+    #    methods named <name>#<event>: the casing rule reads the name in front of the '#'
+    for nm, mod in itertools.product(["Good#Evt", "bad#Evt", "bad#evt", "Good#evt", "_x#E", "init#Click", "Init#click", "xY#Z9"],
+                                     [[], ["override"], ["private"], ["private", "override"]]):
+        add("name", place(Method("proc", nm, [], "int4", mod, []).render()))
+        add("name", place(Method("proc", nm, ["Arg : int4", "low : int4"], "int4", mod, ["var Loc : int4", "Loc = 1"]).render()))
     for pn, pm, ov, kind in itertools.product(["Good", "bad", "_p", "P"], ["", "inout ", "var ", "const "], [False, True], ["proc", "func"]):
         add("name", place(Method(kind, "Work", ["%s%s : int4" % (pm, pn), "Second : int4"], "int4", ["override"] if ov else [], []).render()))
     for ln in ["good", "Bad", "_B", "_b", "X", "x9"]:
